@@ -40,7 +40,7 @@ type c02Kind struct {
 	name  string
 	open  func(list string) string // text before the elements of list "a" / "b"
 	close func(list string) string
-	elem  func(tag string, inner bool) []string // the element's own lines (without leading/trailing comments); trailing comment is appended to the last line
+	elem  func(tag string, inner bool, variant int) []string // the element's own lines (without leading/trailing comments); trailing comment is appended to the last line
 	// slice returns the addressable node slice of list "a"/"b" in the decorated file
 	slice func(f *dst.File, list string) reflect.Value
 	head  string
@@ -85,9 +85,27 @@ var c02Kinds = []c02Kind{
 		open:  func(l string) string { return "func f" + l + "() {" },
 		close: func(l string) string { return "}" },
 		join:  "\n",
-		elem: func(t string, inner bool) []string {
+		elem: func(t string, inner bool, v int) []string {
 			if inner {
 				return []string{t + "( /*I " + t + "*/ 1)"}
+			}
+			switch v % 9 {
+			case 1:
+				return []string{t + " = g(1)"}
+			case 2:
+				return []string{t + "++"}
+			case 3:
+				return []string{"go " + t + "()"}
+			case 4:
+				return []string{"defer " + t + "()"}
+			case 5:
+				return []string{t + " <- 1"}
+			case 6:
+				return []string{"var " + t + " int"}
+			case 7:
+				return []string{t + ".f(" + t + ", 2)"}
+			case 8:
+				return []string{t + " := []int{1, 2}"}
 			}
 			return []string{t + "()"}
 		},
@@ -97,9 +115,19 @@ var c02Kinds = []c02Kind{
 		open:  func(l string) string { return "" },
 		close: func(l string) string { return "" },
 		join:  "\nfunc marker() {}\n\n",
-		elem: func(t string, inner bool) []string {
+		elem: func(t string, inner bool, v int) []string {
 			if inner {
 				return []string{"var " + t + " = /*I " + t + "*/ 1"}
+			}
+			switch v % 5 {
+			case 1:
+				return []string{"const " + t + " = 1"}
+			case 2:
+				return []string{"type " + t + " int"}
+			case 3:
+				return []string{"func " + t + "() {}"}
+			case 4:
+				return []string{"var " + t + " = func() {}"}
 			}
 			return []string{"var " + t + " = 1"}
 		},
@@ -108,9 +136,17 @@ var c02Kinds = []c02Kind{
 		open:  func(l string) string { return "var (\n\tfirst" + l + " = 0" },
 		close: func(l string) string { return ")" },
 		join:  "\n",
-		elem: func(t string, inner bool) []string {
+		elem: func(t string, inner bool, v int) []string {
 			if inner {
 				return []string{t + " = /*I " + t + "*/ 1"}
+			}
+			switch v % 4 {
+			case 1:
+				return []string{t + " int"}
+			case 2:
+				return []string{t + ", x" + t + " = 1, 2"}
+			case 3:
+				return []string{t + " int = 1"}
 			}
 			return []string{t + " = 1"}
 		},
@@ -119,9 +155,19 @@ var c02Kinds = []c02Kind{
 		open:  func(l string) string { return "type T" + l + " struct {\n\tfirst" + l + " int" },
 		close: func(l string) string { return "}" },
 		join:  "\n",
-		elem: func(t string, inner bool) []string {
+		elem: func(t string, inner bool, v int) []string {
 			if inner {
 				return []string{t + " /*I " + t + "*/ int"}
+			}
+			switch v % 5 {
+			case 1:
+				return []string{t + ", x" + t + " string"}
+			case 2:
+				return []string{t + " struct{}"}
+			case 3:
+				return []string{"*" + t}
+			case 4:
+				return []string{t + " int `json:\"" + t + "\"`"}
 			}
 			return []string{t + " int"}
 		},
@@ -132,9 +178,15 @@ var c02Kinds = []c02Kind{
 		open:  func(l string) string { return "type T" + l + " interface {\n\tfirst" + l + "()" },
 		close: func(l string) string { return "}" },
 		join:  "\n",
-		elem: func(t string, inner bool) []string {
+		elem: func(t string, inner bool, v int) []string {
 			if inner {
 				return []string{t + "( /*I " + t + "*/ int)"}
+			}
+			switch v % 3 {
+			case 1:
+				return []string{t + "(x int) error"}
+			case 2:
+				return []string{"pk." + t}
 			}
 			return []string{t + "()"}
 		},
@@ -145,9 +197,23 @@ var c02Kinds = []c02Kind{
 		open:  func(l string) string { return "var first" + l + " = []int{" },
 		close: func(l string) string { return "}" },
 		join:  "\n",
-		elem: func(t string, inner bool) []string {
+		elem: func(t string, inner bool, v int) []string {
 			if inner {
 				return []string{"g( /*I " + t + "*/ " + t + "),"}
+			}
+			switch v % 7 {
+			case 1:
+				return []string{"\"k" + t + "\": " + t + ","}
+			case 2:
+				return []string{"{" + t + "},"}
+			case 3:
+				return []string{"&" + t + ","}
+			case 4:
+				return []string{t + ".f,"}
+			case 5:
+				return []string{"1: " + t + ","}
+			case 6:
+				return []string{"g(" + t + ", 1),"}
 			}
 			return []string{t + ","}
 		},
@@ -158,9 +224,21 @@ var c02Kinds = []c02Kind{
 		open:  func(l string) string { return "var first" + l + " = f(" },
 		close: func(l string) string { return ")" },
 		join:  "\n",
-		elem: func(t string, inner bool) []string {
+		elem: func(t string, inner bool, v int) []string {
 			if inner {
 				return []string{"g( /*I " + t + "*/ " + t + "),"}
+			}
+			switch v % 6 {
+			case 1:
+				return []string{"-" + t + ","}
+			case 2:
+				return []string{t + "[1],"}
+			case 3:
+				return []string{"&" + t + "{},"}
+			case 4:
+				return []string{t + ".f(1),"}
+			case 5:
+				return []string{"\"" + t + "\","}
 			}
 			return []string{t + ","}
 		},
@@ -171,9 +249,15 @@ var c02Kinds = []c02Kind{
 		open:  func(l string) string { return "func f" + l + "() {\n\tswitch x {" },
 		close: func(l string) string { return "\t}\n}" },
 		join:  "\n",
-		elem: func(t string, inner bool) []string {
+		elem: func(t string, inner bool, v int) []string {
 			if inner {
 				return []string{"case " + t + ":", "\tg( /*I " + t + "*/ " + t + ")"}
+			}
+			switch v % 3 {
+			case 1:
+				return []string{"case " + t + ", x" + t + ":", "\tg(" + t + ")", "\th(" + t + ")"}
+			case 2:
+				return []string{"case " + t + " > 1:", "\treturn " + t}
 			}
 			return []string{"case " + t + ":", "\tg(" + t + ")"}
 		},
@@ -184,7 +268,15 @@ var c02Kinds = []c02Kind{
 		open:  func(l string) string { return "import (" },
 		close: func(l string) string { return ")" },
 		join:  "\n",
-		elem: func(t string, inner bool) []string {
+		elem: func(t string, inner bool, v int) []string {
+			switch v % 4 {
+			case 1:
+				return []string{"al" + t + " \"x/" + t + "\""}
+			case 2:
+				return []string{"_ \"x/" + t + "\""}
+			case 3:
+				return []string{". \"x/" + t + "\""}
+			}
 			return []string{"\"x/" + t + "\""}
 		},
 		slice: func(f *dst.File, l string) reflect.Value {
@@ -292,13 +384,14 @@ func c02Generate(r *rand.Rand, kind c02Kind, blank bool) *c02Layout {
 				lines = append(lines, fmt.Sprintf("// L%d %s", k, tag))
 			}
 			inner := r.Intn(3) == 0
-			el := kind.elem(tag, inner)
+			variant := r.Intn(64)
+			el := kind.elem(tag, inner, variant)
 			trail := r.Intn(2) == 0
 			if trail {
 				el[len(el)-1] += " // T " + tag
 			}
 			lines = append(lines, el...)
-			l.shape += fmt.Sprintf("%d%v%v.", nlead, inner, trail)
+			l.shape += fmt.Sprintf("%d%v%v%d.", nlead, inner, trail, variant%9)
 			cs = append(cs, c02Chunk{tag: tag, lines: lines})
 		}
 		return cs
@@ -376,7 +469,7 @@ func applyEdit(e c02Edit, lenA, lenB func() int, swapA func(i, j int), delA func
 }
 
 func runC02(c *fw.Ctx) {
-	n := c.Pick(4000, 200000)
+	n := c.Pick(30000, 400000)
 	for i := 0; i < n; i++ {
 		if !c.Mine(i) {
 			continue
